@@ -23,7 +23,8 @@ pub fn history(seed: u64, idx: u64) -> Case {
     let max_size = rng.range(1, 3) as usize;
     let n_ops = rng.range(5, 35) as usize;
     let lifo = rng.chance(1, 2);
-    let config_desc = format!("max_size={} lifo={}", max_size, lifo);
+    let via_section = rng.chance(1, 2);
+    let config_desc = format!("max_size={} lifo={} via_pool_section={}", max_size, lifo, via_section);
     let rt = tokio::runtime::Builder::new_current_thread().enable_all().build().expect("rt");
     let mut viol: Vec<Violation> = Vec::new();
     let mut log: Vec<String> = Vec::new();
@@ -31,16 +32,17 @@ pub fn history(seed: u64, idx: u64) -> Case {
     let mut nontrivial = false;
     rt.block_on(async {
         let (server, sock, acc) = start_unix().await.expect("listener");
-        let cfg = Config::from_url(format!("unix://{}", sock.0.display()));
-        let pool = cfg
-            .builder()
-            .expect("builder")
-            .max_size(max_size)
-            .queue_mode(if lifo { deadpool::managed::QueueMode::Lifo } else { deadpool::managed::QueueMode::Fifo })
-            .runtime(Runtime::Tokio1)
-            .recycle_timeout(Some(Duration::from_millis(60)))
-            .build()
-            .expect("build");
+        let mut cfg = Config::from_url(format!("unix://{}", sock.0.display()));
+        let qm = if lifo { deadpool::managed::QueueMode::Lifo } else { deadpool::managed::QueueMode::Fifo };
+        // the pool's settings reach it either through the builder's setters or through the pool section of
+        // the Config (the way a deployment configures it); only the recycle timeout is set, so a missing
+        // reply is noticed through it and through nothing else
+        let pool = if via_section {
+            cfg.pool = Some(deadpool::managed::PoolConfig { max_size, timeouts: deadpool::managed::Timeouts { wait: None, create: None, recycle: Some(Duration::from_millis(60)) }, queue_mode: qm });
+            cfg.builder().expect("builder").runtime(Runtime::Tokio1).build().expect("build")
+        } else {
+            cfg.builder().expect("builder").max_size(max_size).queue_mode(qm).runtime(Runtime::Tokio1).recycle_timeout(Some(Duration::from_millis(60))).build().expect("build")
+        };
         let mut held: Vec<(Connection, usize)> = Vec::new();
         let mut taken: Vec<(redis::aio::MultiplexedConnection, usize, u64)> = Vec::new();
         let mut return_seq: HashMap<usize, u64> = HashMap::new();
@@ -70,10 +72,10 @@ pub fn history(seed: u64, idx: u64) -> Case {
                 let rounds = if last { max_size } else { 1 };
                 let mut probe: Vec<(Connection, usize)> = Vec::new();
                 // now and then two gets are in flight at once (their recycle checks overlap)
-                let mut prefetched: Vec<Result<Result<Connection, deadpool_redis::PoolError>, tokio::time::error::Elapsed>> = Vec::new();
+                let mut prefetched: Vec<Result<Result<Result<Connection, deadpool_redis::PoolError>, String>, tokio::time::error::Elapsed>> = Vec::new();
                 let forced = std::mem::take(&mut force_overlap);
                 if !last && max_size - held.len() >= 2 && (forced || rng.chance(1, 3)) {
-                    let (a, b) = tokio::join!(tokio::time::timeout(Duration::from_secs(10), pool.get()), tokio::time::timeout(Duration::from_secs(10), pool.get()));
+                    let (a, b) = tokio::join!(tokio::time::timeout(Duration::from_secs(10), vh_common::catching(pool.get())), tokio::time::timeout(Duration::from_secs(10), vh_common::catching(pool.get())));
                     prefetched.push(a);
                     prefetched.push(b);
                     *counters.entry("overlapping_gets".into()).or_insert(0) += 1;
@@ -82,7 +84,17 @@ pub fn history(seed: u64, idx: u64) -> Case {
                 for _ in 0..rounds {
                     let r = match prefetched.pop() {
                         Some(r) => r,
-                        None => tokio::time::timeout(Duration::from_secs(10), pool.get()).await,
+                        None => tokio::time::timeout(Duration::from_secs(10), vh_common::catching(pool.get())).await,
+                    };
+                    let r = match r {
+                        Ok(Err(p)) => {
+                            // whatever the server said: a connection that cannot be kept is discarded and
+                            // replaced, the caller gets a connection or an error value
+                            v!("get_panicked", "get() with {} of {} connections out panicked: {}", held.len() + probe.len(), max_size, p);
+                            break;
+                        }
+                        Ok(Ok(r)) => Ok(r),
+                        Err(e) => Err(e),
                     };
                     let mut c = match r {
                         Err(_) => {
@@ -217,7 +229,7 @@ pub fn history(seed: u64, idx: u64) -> Case {
                         continue;
                     }
                     let st = server.conn(k);
-                    let look = PingFault::Lookalike(rng.below(5) as u8);
+                    let look = PingFault::Lookalike(rng.below(10) as u8);
                     let code = PingFault::ErrorCode(rng.below(crate::server::ERROR_REPLIES.len() as u64) as u8);
                     let shape = PingFault::Shape(rng.below(3) as u8);
                     let named = PingFault::Named(rng.below(2 * crate::server::NAMED_REPLIES.len() as u64) as u8);
@@ -297,10 +309,14 @@ pub fn ping_race(seed: u64, idx: u64) -> Case {
             hs.push(tokio::spawn(async move {
                 let mut failed: Option<String> = None;
                 for _ in 0..rounds {
-                    match tokio::time::timeout(Duration::from_secs(20), pool.get()).await {
-                        Ok(Ok(c)) => drop(c),
-                        Ok(Err(e)) => {
+                    match tokio::time::timeout(Duration::from_secs(20), vh_common::catching(pool.get())).await {
+                        Ok(Ok(Ok(c))) => drop(c),
+                        Ok(Ok(Err(e))) => {
                             failed = Some(format!("{:?}", e));
+                            break;
+                        }
+                        Ok(Err(p)) => {
+                            failed = Some(format!("get() panicked: {}", p));
                             break;
                         }
                         Err(_) => {
